@@ -58,4 +58,12 @@ theorem create_dup_fails {w w' : World} {s : Nat} {a0 a1 : Asset} {req : Require
     (match comm with | some c => c ≤ E | none => True) :=
   Halo.RegOKP.create_dup_fails h
 
+/-- the LP token of a new pair is a fresh cw20 with zero supply, minted only by the pair, carrying the requested
+decimals (default 6); used as an asset of a later pair it is recorded with exactly those decimals -/
+theorem create_lp_token {w w' : World} {s : Nat} {a0 a1 : Asset} {req : Requirements} {comm lpDec : Option Nat}
+    {np nl : Nat} (h : facCreatePair w s a0 a1 req comm lpDec np nl = .ok w') :
+    ∃ T, w'.tok nl = some T ∧ T.decimals = lpDec.getD 6 ∧ T.supply = 0 ∧ T.minter = some np ∧
+      assetDecimals w' (.token nl) = .ok (lpDec.getD 6) :=
+  Halo.RegOKP.create_lp_token h
+
 end Halo.Props.C16W
